@@ -153,7 +153,9 @@ V2SeqVectors ==
 V2LenCorrupt ==
   UNION { LET w == WBase(11 + pt, pt, FALSE, 9) IN
           { [id |-> "V2Session/len+" \o ToString(d) \o "/" \o ToString(pt), prop |-> "C07", kind |-> "decode", layer |-> "V2Session", class |-> "length-exceeds-data",
-             bytes |-> V2Hdr(w, 9 + d) \o w.payload, exp |-> [err |-> TRUE]] : d \in 1..40 } : pt \in {0, 2, 17} }
+             bytes |-> V2Hdr(w, 9 + d) \o w.payload, exp |-> [err |-> TRUE]]
+             \* (up to the largest values the 16-bit field can hold: header length + length must not wrap)
+             : d \in (1..40) \cup {246, 247, 1000, 32759, 32760} \cup (65490..65526) } : pt \in {0, 2, 17} }
   \cup UNION { { LET w == WBase(13, 0, TRUE, 9) IN
            [id |-> "V2Session/badsig/" \o a[1] \o "/" \o ToString(b), prop |-> "C07", kind |-> "decode", layer |-> "V2SessionAuth", alg |-> a[1], key |-> RBytes(5, 20),
             class |-> "authcode-bit-flipped", bytesT |-> Flip(V2AuthT(w, a[1], RBytes(5, 20), a[2]), b), exp |-> [err |-> TRUE]]
